@@ -601,3 +601,44 @@ func (g *Graph) BlockOfStmt(s ast.Stmt, kind cfg.BlockKind) *cfg.Block {
 	}
 	return nil
 }
+
+// PassesWithin reports whether every path that enters the region [lo,hi) of the source at block
+// start and leaves it (reaches a block whose originating statement lies outside the region, or an
+// exit) crosses an atom satisfying pass. Blocks without atoms are attributed by Block.Stmt.
+func (g *Graph) PassesWithin(start *cfg.Block, lo, hi token.Pos, pass func(ast.Node) bool) bool {
+	seen := map[int32]bool{}
+	var walk func(b *cfg.Block) bool
+	walk = func(b *cfg.Block) bool {
+		if seen[b.Index] {
+			return true
+		}
+		seen[b.Index] = true
+		inside := b == start
+		if !inside {
+			if len(g.Atoms[b.Index]) > 0 {
+				p := g.Atoms[b.Index][0].Pos()
+				inside = p >= lo && p < hi
+			} else if b.Stmt != nil {
+				inside = b.Stmt.Pos() >= lo && b.Stmt.Pos() < hi
+			}
+		}
+		if !inside {
+			return false // left the region without passing
+		}
+		for _, a := range g.Atoms[b.Index] {
+			if pass(a) {
+				return true
+			}
+		}
+		if len(b.Succs) == 0 {
+			return false
+		}
+		for _, s := range b.Succs {
+			if !walk(s) {
+				return false
+			}
+		}
+		return true
+	}
+	return walk(start)
+}
